@@ -108,7 +108,8 @@ def run(ctx):
                 if cmpx[0] == "cmp" and cmpx[1] == "!=":
                     a, b = cmpx[2], cmpx[3]
                     if a[0] == "sub" and b[0] == "sub" and a[1] == b[1]:
-                        guards["square"] = True
+                        # the two extents compared must be the row and the column count of the same operator
+                        guards["square"] = {a[2], b[2]} == {("c", 0), ("c", 1)}
                     else:
                         guards["equal"] = True
         if "numpy.allclose" in r:
